@@ -195,8 +195,16 @@ class Agent(dbus.service.Object):
             self.stop()
             return True
 
-        for hdl in self._handlers:
-            hdl.terminate()
+        for hdl in tuple(self._handlers):
+            state = hdl.get_session_state()
+            if state == 'established':
+                hdl.terminate()
+            elif state != 'ending':
+                # No session to terminate gracefully
+                hdl.close()
+        if not self._handlers:
+            # Closing the last contact already stopped the agent
+            return True
         self._logger.info('Waiting on sessions to terminate')
         return False
 
